@@ -24,8 +24,8 @@ import Verif.Model.Common
       `DefaultLeafTemplate` + `Certificate.GetCertificate` (`SubjectAlternativeName.Set` appends
       each name to the list of its type)                                -> `applyLeaf`
       `DefaultAdminLeafTemplate`                                        -> `applyAdmin`
-    * authority/provisioner/nebula.go `(*Nebula).AuthorizeSign`, `nebulaSANsValidator.Valid`
-                                                                        -> `authorize` (.nebula), `nebValid`
+    * authority/provisioner/nebula.go `(*Nebula).AuthorizeSign`, `nebulaSANsValidator.Valid`,
+      `validateNebulaTokenSANs` (since 62bb26c)      -> `authorize` (.nebula), `nebValid`, `tokenAuthorized`
     * authority/provisioner/k8sSA.go `(*K8sSA).AuthorizeSign`           -> `authorize` (.k8ssa)
     * authority/tls.go `signX509`: CSR signature, request validators in option order, template,
       modifiers, (certificate validators and enforcers do not touch names: validity is C06,
@@ -215,8 +215,8 @@ def authorize (cfg : Cfg) (t : Token) : Plan :=
       tpl := if cfg.hasTemplate then .custom else if admin then .admin else .leaf
       cnRule := .none, sans := none, cnf := .absent }
   | .nebula =>
-    -- `sans := claims.SANs; if len(sans) == 0 { name, then every ip }`: the token's list is used
-    -- as it is; only the CSR is compared with the Nebula certificate (nebulaSANsValidator)
+    -- `sans := claims.SANs; if len(sans) == 0 { name, then every ip }`; a listed name that the
+    -- Nebula certificate does not certify is refused before this point (`tokenAuthorized`)
     let sans := if t.sans.isEmpty then nebCreds t else t.sans
     { data := ⟨t.sub.raw, createSANs sans, none⟩
       tpl := if cfg.hasTemplate then .custom else .leaf
@@ -327,6 +327,7 @@ def hasDupOid : List Ext → Bool
 /-! ### signX509 -/
 
 inductive Res where
+  | unauthorized (status : Nat)   -- `Authority.Authorize` failed: no sign option was built
   | refused (status : Nat)
   | error
   | issued (c : Cert)
@@ -354,6 +355,25 @@ def sign (cfg : Cfg) (t : Token) (c : CSR) (ud : Option UserData) (enc : Enc) : 
   else if encOK (authorize cfg t) enc = false ∨
       hasDupOid (finalCert cfg (authorize cfg t) c (templateUser cfg ud)).exts = true then .error
   else .issued (finalCert cfg (authorize cfg t) c (templateUser cfg ud))
+
+/-! ### Authorize + Sign -/
+
+/-- `validateNebulaTokenSANs` (one name): the name is the Nebula certificate's name, or parses as
+    an IP (`SplitSANs` class ip ⇔ `net.ParseIP` ≠ nil) equal to one of its addresses -/
+def nebCertified (t : Token) (x : San) : Bool :=
+  t.nebName.map (·.raw) == some x.raw || (x.kind == .ip && t.nebIPs.contains x.canon)
+
+/-- what `AuthorizeSign` itself refuses once the token is verified. Nebula: a token that lists
+    names (`sans` claim) may only list names the Nebula certificate certifies — the token is signed
+    with the key of a host certificate, not by the Nebula CA (403 before any option is built). -/
+def tokenAuthorized (cfg : Cfg) (t : Token) : Bool :=
+  match cfg.prov with
+  | .nebula => t.sans.all (nebCertified t)
+  | _ => true
+
+/-- `Authority.Authorize` followed by `Authority.Sign`, as the /1.0/sign handler runs them -/
+def request (cfg : Cfg) (t : Token) (c : CSR) (ud : Option UserData) (enc : Enc) : Res :=
+  if tokenAuthorized cfg t = false then .unauthorized 403 else sign cfg t c ud enc
 
 /-! ### source-derived tables
 
